@@ -197,9 +197,17 @@ func (its *TransactionDatatype) DoTransaction(
 			// do nothing
 		}
 	}()
-	if err := funcWithCloneDatatype(txCtx); err != nil {
+	funcCtx := txCtx
+	if funcCtx == nil {
+		// nested in the transaction of currentTxCtx, which holds the lock: work with its context, and let it end.
+		funcCtx = currentTxCtx
+	}
+	if err := funcWithCloneDatatype(funcCtx); err != nil {
 		its.SetTransactionFail()
 		return errors.DatatypeTransaction.New(its.L(), err.Error())
+	}
+	if txCtx != nil && !its.success {
+		return errors.DatatypeTransaction.New(its.L(), "a nested transaction failed")
 	}
 	return nil
 }
